@@ -590,12 +590,12 @@ func main() {
 
 	w := &world{}
 	t := trace.Create(*out)
-	defer t.Close()
-	defer func() {
+	defer func() { // after the trace has been flushed
 		if w.srv != nil {
 			w.srv.Stop()
 		}
 	}()
+	defer t.Close()
 	if *replay != "" {
 		for _, op := range trace.ReadOps(*replay) {
 			w.run(t, op)
